@@ -264,6 +264,12 @@ def run(cx):
     id_arith_discipline(cx, "C02.l")
     from props.shared import half_connection_clock
     half_connection_clock(cx, "C02.m")
+    from props.shared import resync_walk, window_walks
+    resync_walk(cx, "C02.n")
+    window_walks(cx, "C02.o")
+    # a header bit that spills into a neighbouring field changes the parent leads a packet is delivered under
+    from bits import check_headers
+    check_headers(cx, "C02.p", "C02.q")
 
 
 SELFTEST = [
